@@ -866,14 +866,14 @@ V(id='c43-tanh-complex-tan', prop='C43', file='mpmath/math2.py',
   old="tanh = _mathfun_real(math.tanh, cmath.tanh)", new="tanh = _mathfun_real(math.tanh, cmath.tan)",
   expect='fire:F-R2:tanh')
 V(id='c43-sqrt-on-fast-path', prop='C43', file='mpmath/math2.py',
-  old="sqrt = _mathfun(math_sqrt, cmath.sqrt)", new="sqrt = _mathfun_real(math_sqrt, cmath.sqrt)",
+  old="sqrt = _mathfun(math_sqrt, lambda z:", new="sqrt = _mathfun_real(math_sqrt, lambda z:",
   expect='fire:F-R3:sqrt')
 V(id='c43-acos-on-fast-path', prop='C43', file='mpmath/math2.py',
   old="acos = _mathfun(math.acos,", new="acos = _mathfun_real(math.acos,",
   expect='fire:F-R3:acos')
 V(id='c43-cbrt-math-cbrt', prop='C43', file='mpmath/math2.py',
-  old="cbrt = _mathfun(_cbrt, _cbrt)",
-  new="cbrt = _mathfun(math.cbrt, _cbrt)",
+  old="cbrt = _mathfun(_cbrt, lambda z:",
+  new="cbrt = _mathfun(math.cbrt, lambda z:",
   expect='fire:F-R3:cbrt')
 V(id='c43-wrapper-valueerror-only', prop='C43', file='mpmath/math2.py',
   old="""        try:
@@ -2239,3 +2239,29 @@ V(id='c15-new-rectangle-function-on-mpi-exp', prop='C15', file='mpmath/libmp/lib
 V(id='c15-abs-through-log', prop='C15', file='mpmath/libmp/libmpi.py',
   old="def mpci_abs(x, prec):\n", new="def mpci_abs(x, prec):\n    if x is None:\n        return mpi_exp(mpi_log(x[0], prec), prec)\n",
   expect='fire:C-R14t:mpci_abs')
+
+# ---- C43 F-R6 negative-axis cuts (fix 95d3eaf) ----
+V(id='c43-sqrt-bare-cmath', prop='C43', file='mpmath/math2.py',
+  old="sqrt = _mathfun(math_sqrt, lambda z: cmath.sqrt(_neg_axis_cut(z)))", new="sqrt = _mathfun(math_sqrt, cmath.sqrt)",
+  expect='fire:F-R6:sqrt')
+V(id='c43-acosh-cut-below-zero', prop='C43', file='mpmath/math2.py',
+  old="acosh = _mathfun(math.acosh, lambda z: cmath.acosh(_neg_axis_cut(z, 1.0)))", new="acosh = _mathfun(math.acosh, lambda z: cmath.acosh(_neg_axis_cut(z)))",
+  expect='fire:F-R6:acosh')
+V(id='c43-neg-cut-helper-negative-zero', prop='C43', file='mpmath/math2.py',
+  old="    if z.imag == 0 and z.real < below:\n        return complex(z.real, 0.0)", new="    if z.imag == 0 and z.real < below:\n        return complex(z.real, -0.0)",
+  expect='fire:F-R6')
+V(id='c43-pow-base-not-normalised', prop='C43', file='mpmath/math2.py',
+  old="pow = _mathfun_n(operator.pow, lambda x, y: _neg_axis_cut(complex(x))**y)", new="pow = _mathfun_n(operator.pow, lambda x, y: complex(x)**y)",
+  expect='fire:F-R6:pow')
+V(id='c43-log-wrong-sibling-through-helper', prop='C43', file='mpmath/math2.py',
+  old="log = _mathfun_n(math_log, lambda *args: cmath.log(*[_neg_axis_cut(z) for z in args]))", new="log = _mathfun_n(math_log, lambda *args: cmath.log10(*[_neg_axis_cut(z) for z in args]))",
+  expect='fire:F-R2:log')
+
+# ---- C43 F-R12 (fixes b302003, 0e35d5b): log(1+t) sums carry magnitude-dependent precision ----
+V(id='c43-catan-constant-guard-bits', prop='C43', file='mpmath/libmp/libmpc.py',
+  old="            # atan(z) = z - z^3/3 + ...\n            return mpc_pos(z, prec, rnd)\n        wp += -mag\n", new="            # atan(z) = z - z^3/3 + ...\n            return mpc_pos(z, prec, rnd)\n",
+  expect='fire:F-R12:mpc_atan')
+V(id='c43-acosh-constant-guard-bits', prop='C43', file='mpmath/libmp/libelefun.py',
+  old="    if tman and texp+tbc < 0:\n        wp += -(texp+tbc)\n", new="", expect='fire:F-R12:mpf_acosh')
+V(id='c43-asin-log1p-fixed-precision', prop='C43', file='mpmath/libmp/libmpc.py',
+  old="            wp2 = wp + max(0, -tmag)\n", new="            wp2 = wp + 5\n", expect='fire:F-R12:acos_asin')
